@@ -334,6 +334,33 @@ def classdispatch(
     return impl(value, *args, **kwargs)
 
 
+def copy_containers(values: Any) -> Any:
+    """
+    Copy a coerced value: dictionaries and lists (the containers coercion
+    builds and default values are written with) are rebuilt, iteratively as
+    variable values can be nested deeper than the recursion limit allows
+    ``copy.deepcopy`` to go; leaf values are handed over as they are (an enum
+    member maps to its declared internal value, not to a copy of it).
+    """
+    memo = {}  # type: dict
+    root = [None]  # type: List[Any]
+    stack = [(values, root, 0)]  # type: List[Tuple[Any, Any, Any]]
+    while stack:
+        source, target, key = stack.pop()
+        if type(source) in (dict, list):
+            if id(source) in memo:
+                target[key] = memo[id(source)]
+            elif type(source) is dict:
+                target[key] = memo[id(source)] = copied = dict.fromkeys(source)
+                stack.extend((v, copied, k) for k, v in source.items())
+            else:
+                target[key] = memo[id(source)] = copied = [None] * len(source)
+                stack.extend((v, copied, i) for i, v in enumerate(source))
+        else:
+            target[key] = source
+    return root[0]
+
+
 def apply_middlewares(
     func: Callable[..., Any], middlewares: Sequence[Callable[..., Any]]
 ) -> Callable[..., Any]:
